@@ -499,7 +499,7 @@ def gen_ops(ctx):
             # long intervals: iteration has no reason to behave differently after the first few weeks, which is
             # exactly why it has to be looked at there (chunked / re-based iteration)
             if kind in ("zero", "rnd", "min"):
-                for ln in (299, 300, 301, 599, 600, 601, 1461) + ((9_999, 40_000) if ctx.thorough else ()):
+                for ln in (299, 300, 301, 599, 600, 601, 1461) + (((9_999, 40_000) if kind == "zero" else (9_999,)) if ctx.thorough else ()):
                     if base + ln <= hi:
                         pa = " ".join(map(str, (o, base, o, base + ln)))
                         ops.append(f"di.len {pa}")
